@@ -551,16 +551,35 @@ FormatterToXML::accumContentAsByteDirect(XalanDOMChar   ch)
 
 
 void
+FormatterToXML::checkNameChar(XalanUnicodeChar  ch)
+{
+    // There are no character references in a name, a comment or a
+    // processing instruction, so a character the output encoding
+    // cannot represent is an error.
+    if (m_stream != 0 && m_stream->canTranscodeTo(ch) == false)
+    {
+        XalanDOMString  theBuffer(getMemoryManager());
+
+        throw XalanTranscodingServices::UnrepresentableCharacterException(
+                    ch,
+                    m_encoding,
+                    theBuffer);
+    }
+}
+
+
+
+void
 FormatterToXML::accumNameAsChar(XalanDOMChar    ch)
 {
-    if (ch > m_maxCharacter)
+    // The code units of a surrogate pair are checked as one
+    // character in accumNameArray().
+    if (ch > m_maxCharacter && (ch & 0xF800) != 0xD800)
     {
-        m_charBuf[m_pos++] = XalanUnicode::charQuestionMark;
+        checkNameChar(ch);
     }
-    else
-    {
-        m_charBuf[m_pos++] = ch;
-    }
+
+    m_charBuf[m_pos++] = ch;
 
     if(m_pos == s_maxBufferSize)
     {
@@ -575,14 +594,12 @@ FormatterToXML::accumNameAsCharDirect(XalanDOMChar  ch)
 {
     assert(m_stream != 0);
 
-    if (ch > m_maxCharacter)
+    if (ch > m_maxCharacter && (ch & 0xF800) != 0xD800)
     {
-        m_stream->write(XalanDOMChar(XalanUnicode::charQuestionMark));
+        checkNameChar(ch);
     }
-    else
-    {
-        m_stream->write(ch);
-    }
+
+    m_stream->write(ch);
 }
 
 
@@ -653,10 +670,7 @@ FormatterToXML::accumCharUTFDirect(XalanDOMChar ch)
 void
 FormatterToXML::accumNameString(const XalanDOMChar* chars)
 {
-    for(; *chars!= 0; ++chars)
-    {
-        accumName(*chars);
-    }
+    accumNameArray(chars, 0, length(chars));
 }
 
 
@@ -704,6 +718,19 @@ FormatterToXML::accumNameArray(
 
     for(size_type i = start; i < n; ++i)
     {
+        const XalanDOMChar  ch = chars[i];
+
+        if (isUTF16Surrogate(ch) == true &&
+            i + 1 < n &&
+            0xdc00 <= chars[i + 1] && chars[i + 1] < 0xe000)
+        {
+            checkNameChar(((ch - 0xd800) << 10) + chars[i + 1] - 0xdc00 + 0x00010000);
+
+            accumName(ch);
+
+            ++i;
+        }
+
         accumName(chars[i]);
     }
 }
